@@ -237,13 +237,23 @@ def _plumbing(model, rep, mod, ci):
     ok = set(lparams) <= td
     rep.ob('plumbing', mod, limb, 'makeLIMBpreene parameters %s are thermodict keys' % lparams, ok,
            '' if ok else 'makeLIMBpreene(**thermodict) lacks %s' % sorted(set(lparams) - td), engine='tables')
-    # keys of the LIMB return map onto themselves
+    # the array returned under a prefactor key is computed from prefactors only, under an energy key from energies only
+    # (data dependence; the omega1 / omega2 family of each array is decided by the index-family rule)
+    ldeps = shape.param_deps(limb)
+    nkeys = 0
     for n in walk_local(limb):
         if isinstance(n, ast.Return) and isinstance(n.value, ast.Dict):
             for k, v in zip(n.value.keys, n.value.values):
-                okk = isinstance(k, ast.Constant) and unparse(v) == k.value
-                rep.ob('plumbing', mod, v, "makeLIMBpreene returns {'%s': %s}" % (getattr(k, 'value', '?'), unparse(v)), okk,
-                       '' if okk else 'key carries another array', engine='tables')
+                if not (isinstance(k, ast.Constant) and isinstance(k.value, str) and k.value[:3] in ('pre', 'ene')):
+                    continue
+                kind, otherkind = k.value[:3], ('ene' if k.value[:3] == 'pre' else 'pre')
+                d = {q for q in ldeps(v) if q[:3] in ('pre', 'ene')}
+                okk = any(q.startswith(kind) for q in d) and not any(q.startswith(otherkind) for q in d)
+                nkeys += 1
+                rep.ob('plumbing', mod, v, "makeLIMBpreene returns {'%s': <built from %s>}" % (k.value, sorted(d)), okk,
+                       '' if okk else 'a %s is returned under the key of a %s' % ('prefactor/energy mix' if d else 'constant', k.value),
+                       engine='tables', qual='VacancyMediated.makeLIMBpreene')
+    rep.floor('makeLIMBpreene returned keys', nkeys, 4)
     # preene2betafree return order = Lij positional parameters
     ret = [n for n in walk_local(p2b) if isinstance(n, ast.Return)]
     if len(ret) != 1 or not isinstance(ret[0].value, ast.Tuple):
